@@ -1,40 +1,81 @@
-//! Capturing `log::Log`: records every formatted record when capture is on (C20), otherwise
-//! discards. Installed once per process.
+//! Log capture through the endpoint's own logger (`trusttunnel::log_utils::FileLogger`): what a
+//! check reads is what an operator would find in the log file, with the endpoint's own filtering
+//! and formatting. Capture is on between `start()` and `stop()`; otherwise the level is Off.
+//! Installed once per process.
 
-use std::sync::atomic::{AtomicBool, Ordering};
-use std::sync::Mutex;
+use std::io::{Read, Seek, SeekFrom};
+use std::sync::atomic::{AtomicU64, Ordering};
+use std::sync::OnceLock;
 
-static CAPTURE: AtomicBool = AtomicBool::new(false);
-static RECORDS: Mutex<Vec<String>> = Mutex::new(Vec::new());
-
-struct Cap;
-
-impl log::Log for Cap {
-    fn enabled(&self, _: &log::Metadata) -> bool {
-        CAPTURE.load(Ordering::Relaxed)
-    }
-    fn log(&self, record: &log::Record) {
-        if CAPTURE.load(Ordering::Relaxed) {
-            let line = format!("[{}] {} {}", record.level(), record.target(), record.args());
-            RECORDS.lock().unwrap().push(line);
-        }
-    }
-    fn flush(&self) {}
-}
+static PATH: OnceLock<std::path::PathBuf> = OnceLock::new();
+/// how far the logger has written (the file is emptied between captures, the logger's own
+/// position keeps growing)
+static POS: AtomicU64 = AtomicU64::new(0);
 
 pub fn install() {
-    let _ = log::set_logger(&Cap);
+    let path = std::env::temp_dir().join(format!("ttv-log-{}.txt", std::process::id()));
+    if let Ok(logger) = trusttunnel::log_utils::make_file_logger(&path.to_string_lossy()) {
+        let _ = log::set_logger(logger);
+    }
     log::set_max_level(log::LevelFilter::Off);
+    let _ = PATH.set(path);
+}
+
+/// Remove the capture file (at process end)
+pub fn cleanup() {
+    if let Some(p) = PATH.get() {
+        let _ = std::fs::remove_file(p);
+    }
+}
+
+fn file_len() -> u64 {
+    PATH.get().and_then(|p| std::fs::metadata(p).ok()).map(|m| m.len()).unwrap_or(0)
 }
 
 pub fn start() {
-    RECORDS.lock().unwrap().clear();
-    CAPTURE.store(true, Ordering::SeqCst);
+    log::logger().flush();
+    POS.store(POS.load(Ordering::SeqCst).max(file_len()), Ordering::SeqCst);
     log::set_max_level(log::LevelFilter::Trace);
 }
 
+/// The records written since `start()`, one per element, as `[LEVEL] target message`
 pub fn stop() -> Vec<String> {
-    CAPTURE.store(false, Ordering::SeqCst);
     log::set_max_level(log::LevelFilter::Off);
-    std::mem::take(&mut *RECORDS.lock().unwrap())
+    log::logger().flush();
+    let Some(path) = PATH.get() else { return vec![] };
+    let from = POS.load(Ordering::SeqCst);
+    let mut text = vec![];
+    if let Ok(mut f) = std::fs::File::open(path) {
+        if f.seek(SeekFrom::Start(from)).is_ok() {
+            let _ = f.read_to_end(&mut text);
+        }
+    }
+    POS.store(from + text.len() as u64, Ordering::SeqCst);
+    // give the disk space back; the logger keeps writing at its own position (sparse file)
+    if let Ok(f) = std::fs::OpenOptions::new().write(true).open(path) {
+        let _ = f.set_len(0);
+    }
+    let text = String::from_utf8_lossy(&text);
+    let mut out: Vec<String> = vec![];
+    for line in text.lines() {
+        // "HH:MM:SS.micros [ThreadId(n)] [LEVEL] [target] message"
+        let mut it = line.splitn(5, ' ');
+        let (t, th, lvl, target, msg) = (it.next(), it.next(), it.next(), it.next(), it.next());
+        match (t, th, lvl, target) {
+            (Some(t), Some(th), Some(lvl), Some(target))
+                if t.len() >= 8 && th.starts_with("[ThreadId(") && lvl.starts_with('[') && target.starts_with('[') =>
+            {
+                out.push(format!("{} {} {}", lvl, target.trim_start_matches('[').trim_end_matches(']'), msg.unwrap_or("")));
+            }
+            _ => match out.last_mut() {
+                // continuation of a multi-line record
+                Some(last) => {
+                    last.push('\n');
+                    last.push_str(line);
+                }
+                None => out.push(line.to_string()),
+            },
+        }
+    }
+    out
 }
